@@ -234,6 +234,22 @@ func c11(c *Ctx) {
 				c.R.Add(Finding{Kind: "oracle", What: "a .lfsconfig source registered a filter extension", Case: lines[i], Impl: strings.Join(e1, ",")})
 			}
 		}
+		// the extension table is the one the trusted sources alone produce (Props.C11.extensions_come_from_git_config)
+		{
+			var trusted []*git.ConfigurationSource
+			for si := range cc.Sources {
+				if !cc.Safe[si] {
+					trusted = append(trusted, srcs[si])
+				}
+			}
+			_, et, _ := config.VerifReadGitConfig(trusted...)
+			if strings.Join(et, ",") != strings.Join(exts, ",") {
+				c.R.Add(Finding{Kind: "oracle", What: "the extension table differs from the one Git's own configuration alone produces", Case: lines[i], Impl: strings.Join(exts, ",") + " vs " + strings.Join(et, ",")})
+			}
+			if len(et) > 0 {
+				c.R.Count("oracle.extensions-of-trusted-sources")
+			}
+		}
 		// git config wins
 		if len(cc.Sources) == 2 && cc.Safe[0] && !cc.Safe[1] {
 			gv, _, _ := config.VerifReadGitConfig(srcs[1])
